@@ -480,6 +480,15 @@ func c01Run(c *Ctx) {
 			}
 		}
 	}
+	// 9b''. line breaks inside an array / object literal initialiser are not tokens: same tree as on one line
+	for _, text := range []string{K["var"] + " m = [\n [1, 2],\n [3, 4]\n];", K["var"] + " o = {\n a: 1,\n b: [\n 2\n ]\n};", K["var"] + " t = [\n {id: 1},\n {id: 2}\n];\n" + K["print"] + " t;", K["var"] + " e = [\n];", K["var"] + " w = [1,\n 2, 3];", K["var"] + " bad = [\n 1,\n 2 3\n];", K["var"] + " bad2 = {\n a: 1\n b: 2\n};"} {
+		if c.Mine() {
+			tj(&Case{Gen: "multiline-literal-declarations", Src: text})
+		}
+		if c.Mine() {
+			tj(&Case{Gen: "multiline-literal-declarations", Src: strings.ReplaceAll(text, "\n", " ")})
+		}
+	}
 	// 9c. property names are plain identifiers: every built-in name (and a few other words) as a key of an
 	// object literal, after a dot on the right and on the left of an assignment (tree comparison)
 	{
